@@ -1,88 +1,23 @@
 /-
-HollowPlanar3DCode, all sizes, C17 (2/2): the packing bound, the light membrane, weights of the
-listed logicals.
+HollowPlanar3DCode, all sizes, C17 (2/3): the packing bound.
 
 `X̄` (X on the x edges of the line `y = z = 0`, weight `Lx`) has one translate per x line that
 misses the hole — as many as there are x edges in the cross-section `x = 3`:
 `wZ = Ly·Lz − (Ly − 2)(Lz − 2)` when the hole is there (`Lx ≥ 3`), `Ly·Lz` otherwise.  `Z̄` (Z on the
-plane `x = 1`, weight `Ly·Lz`) has the `Lx` translates "existing x edges of the cross-section
-`x = 2i + 1`".  Hence every non-trivial logical operator has weight `≥ min Lx wZ`, and for
-`Lx ≥ 3` the cross-section `x = 3` IS a non-trivial logical operator of weight `wZ` (it commutes
-with every generator and anticommutes with `X̄` because it has the same parities as `Z̄`).  So the
-true distance is `min Lx wZ`, while `code.d` reports `min Lx (Ly·Lz)`.
+existing x edges of the cross-section `x = 3` when `Lx ≥ 3`, of the plane `x = 1` otherwise, weight
+`wZ`: `LatHollowPlanar3DCodeLogZ.lean`) has the `Lx` translates "existing x edges of the
+cross-section `x = 2i + 1`".  Hence every non-trivial logical operator has weight `≥ min Lx wZ`,
+which is what `code.d` reports since the repair of `get_logicals_z` (before it, `Z̄` was the full end
+plane `x = 1` and `code.d = min Lx (Ly·Lz)`).
 -/
-import PanqecVerif.Proofs.DistHollowPlanar3DCodeA
+import PanqecVerif.Proofs.LatHollowPlanar3DCodeLogZ
 
 namespace Panqec.HollowPlanar3DCode
 open Panqec.Cubic3D Panqec.Lat2D
 open Panqec.Planar3DCode (inE inO inE2 inO1 isVertex isFaceXY isFaceYZ isFaceXZ isq isq_iff
   lxK lzK lineX planeX mem_lineX mem_planeX lineX_nodup planeX_nodup)
 
-/-- the number of x edges in a cross-section through the hole (`x = 3`): the weight of the
-    lightest Z membrane -/
-def wZ (Lx Ly Lz : Nat) : Nat := Ly * Lz - (if 3 ≤ Lx then (Ly - 2) * (Lz - 2) else 0)
-
 variable {Lx Ly Lz : Nat}
-
-/-! ### cross-sections -/
-
-theorem mem_crossX {i : Nat} {q : Coord} :
-    q ∈ crossX Lx Ly Lz i ↔ ∃ y z, inE Ly y ∧ inE Lz z ∧ q = [2 * (i : Int) + 1, y, z] ∧
-      ¬ Hole Lx Ly Lz (2 * (i : Int) + 1) y z := by
-  unfold crossX
-  rw [List.mem_filter, mem_planeX]
-  constructor
-  · rintro ⟨⟨y, z, hy, hz, rfl⟩, hn⟩
-    exact ⟨y, z, hy, hz, rfl, notHoleC3.mp hn⟩
-  · rintro ⟨y, z, hy, hz, rfl, hn⟩
-    exact ⟨⟨y, z, hy, hz, rfl⟩, notHoleC3.mpr hn⟩
-
-theorem crossX_nodup (i : Nat) : (crossX Lx Ly Lz i).Nodup := (planeX_nodup Ly Lz i).filter _
-
-theorem crossX_sub {i : Nat} (hi : i < Lx) : ∀ q ∈ crossX Lx Ly Lz i, q ∈ qubits Lx Ly Lz := by
-  intro q hq
-  obtain ⟨y, z, hy, hz, rfl, hn⟩ := mem_crossX.mp hq
-  rw [mem_qubits, Planar3DCode.mem_qubits]
-  refine ⟨?_, hn⟩
-  simp only [inO1, inE, inE2, inO] at hy hz ⊢
-  omega
-
-theorem crossX_zero : crossX Lx Ly Lz 0 = lzK Ly Lz := by
-  unfold crossX
-  rw [Planar3DCode.lzK_eq, List.filter_eq_self]
-  intro q hq
-  obtain ⟨y, z, _, _, rfl⟩ := mem_planeX.mp hq
-  rw [notHoleC3]
-  intro h; unfold Hole at h; omega
-
-/-- the cross-section `x = 3` has `wZ` x edges -/
-theorem length_crossX_one : (crossX Lx Ly Lz 1).length = wZ Lx Ly Lz := by
-  have e : crossX Lx Ly Lz 1 =
-      gridH Lx Ly Lz [3] (range2 0 (2 * (Ly : Int))) (range2 0 (2 * (Lz : Int))) := by
-    rw [gridH_eq]
-    unfold crossX planeX Cubic3D.grid grid2
-    simp
-  have h := length_gridH Lx Ly Lz [3] (range2 0 (2 * (Ly : Int))) (range2 0 (2 * (Lz : Int)))
-  rw [len_holeYZ_E, len_holeYZ_E, Planar3DCode.length_rangeE, Planar3DCode.length_rangeE] at h
-  rw [e]
-  unfold wZ
-  by_cases h3 : 3 ≤ Lx
-  · have hh : holeX Lx 3 = true := by
-      simp only [holeX, Bool.and_eq_true, decide_eq_true_eq]; omega
-    have hx : ([3] : List Int).filter (holeX Lx) = [3] := by simp [hh]
-    rw [hx] at h
-    simp only [List.length_cons, List.length_nil, Nat.zero_add, Nat.one_mul] at h
-    rw [if_pos h3]
-    omega
-  · have hh : holeX Lx 3 = false := by
-      rw [Bool.eq_false_iff]
-      simp only [holeX, ne_eq, Bool.and_eq_true, decide_eq_true_eq]; omega
-    have hx : ([3] : List Int).filter (holeX Lx) = [] := by simp [hh]
-    rw [hx] at h
-    simp only [List.length_cons, List.length_nil, Nat.zero_add, Nat.one_mul, Nat.zero_mul,
-      Nat.add_zero] at h
-    rw [if_neg h3]
-    omega
 
 /-! ### the packing bound -/
 
@@ -174,7 +109,8 @@ theorem lower_bound (hwf : (lattice Lx Ly Lz).WF)
     refine ⟨_, by rw [h1]; exact Nat.min_le_left _ _, h2, h3, ?_⟩
     intro b _ _ hb r hr
     obtain ⟨i, hi, rfl⟩ := List.mem_map.mp hr
-    rw [← crossX_zero (Lx := Lx), opAntiCount_uop_hit, opAntiCount_uop_hit]
-    exact parity_Z hb i (List.mem_range.mp hi)
+    have hi' : i < Lx := List.mem_range.mp hi
+    rw [opAntiCount_uop_hit, opAntiCount_uop_hit, parity_Z hb i hi',
+      parity_Z hb (zIdx Lx) (zIdx_lt (by omega))]
 
 end Panqec.HollowPlanar3DCode
